@@ -1,7 +1,8 @@
 (* MaildirFS/Check.v — boolean case checkers of the correspondence runs of
    harness/props/C15.py and C14.py: the values observed on the real backend
    are inside each case, the model recomputes them under vm_compute. *)
-From PV Require Import Base.Prelude Base.Decimal MaildirFS.FS MaildirFS.UidList MaildirFS.Ops.
+From PV Require Import Base.Prelude Base.Decimal MaildirFS.FS MaildirFS.UidList MaildirFS.Ops
+  MaildirFS.Spec MaildirFS.Legal.
 Local Open Scope N_scope.
 
 (* ---- uid list / subscriptions text *)
@@ -21,6 +22,9 @@ Definition chk_subs_print (c : list bytes * bytes) : bool :=
 Definition chk_subs_parse (c : bytes * list bytes) : bool :=
   eqb_list bytes_eqb (parse_subs (fst c)) (snd c).
 
+Definition is_rename (c : cmd) : bool :=
+  match c with CRename _ _ _ => true | _ => false end.
+
 (* ---- operation traces: (layout, initial fs, [(command, observed ops,
    observed status)], final directory snapshot) *)
 Fixpoint chk_cmds (lay : layout) (m : fs) (sel : selection)
@@ -31,6 +35,9 @@ Fixpoint chk_cmds (lay : layout) (m : fs) (sel : selection)
       let o := run_cmd lay m sel c in
       let '(m', ok) := apply_ops lay m (o_ops o) in
       eqb_list fsop_eqb (o_ops o) ops && ack_eqb (o_ack o) a && ok
+      (* every operation is of a legal kind in its state (the renames of folder
+         directories of RENAME are outside the proved transition system) *)
+      && (is_rename c || legal_ops_b lay m (o_ops o))
       && chk_cmds lay m' (o_sel o) r final
   end.
 
@@ -46,6 +53,7 @@ Fixpoint first_bad (lay : layout) (m : fs) (sel : selection)
       let o := run_cmd lay m sel c in
       let '(m', ok) := apply_ops lay m (o_ops o) in
       if eqb_list fsop_eqb (o_ops o) ops && ack_eqb (o_ack o) a && ok
+         && (is_rename c || legal_ops_b lay m (o_ops o))
       then first_bad lay m' (o_sel o) r (S i)
       else Some (i, o_ops o, o_ack o)
   end.
@@ -84,24 +92,49 @@ Fixpoint join_name (f : fname) : bytes :=
   | x :: r => x ++ 47 :: join_name r
   end.
 
-(* LSUB: INBOX plus the existing folders whose name is subscribed; None when
-   subscriptions.lock is present (the command answers NO [TIMEOUT]) *)
-Definition recover_lsub (m : fs) : option (list fname) :=
-  if exists_ m (PCtl [] CSubsLock) then None
-  else let subs := recover_subs m in
-       Some (filter (fun f => match f with
-                              | [] => true
-                              | _ => existsb (bytes_eqb (join_name f)) subs
-                              end) (folders_of m)).
+(* LSUB: INBOX and every subscribed name (whether or not a mailbox of that
+   name exists), possibly with the superior names of subscribed names; None
+   when subscriptions.lock is present (the command answers NO [TIMEOUT]) *)
+Definition inbox_name : bytes := [73; 78; 66; 79; 88].
+
+Fixpoint is_superior (a n : bytes) : bool :=     (* n = a ++ "/" ++ _ *)
+  match a, n with
+  | [], 47 :: _ => true
+  | x :: a', y :: n' => (x =? y) && is_superior a' n'
+  | _, _ => false
+  end.
+
+Definition lsub_ok (subs observed : list bytes) : bool :=
+  forallb (fun n => existsb (bytes_eqb n) observed) (inbox_name :: subs)
+  && forallb (fun o => bytes_eqb o inbox_name || existsb (bytes_eqb o) subs
+                       || existsb (is_superior o) subs) observed.
+
+Definition recover_lsub (m : fs) : option (list bytes) :=
+  if exists_ m (PCtl [] CSubsLock) then None else Some (recover_subs m).
 
 Record odump := { d_views : list (fname * oview)%type;   (* one per listed mailbox *)
-                  d_lsub : option (list fname) }.
+                  d_lsub : option (list bytes) }.
+
+(* the executable view (directory scans) and the [serves] predicate of the
+   theorems (path lookups) agree on this state: every message the view serves
+   is found by looking its path up, with the same content *)
+Definition view_by_lookup (m : fs) (f : fname) : bool :=
+  match recover_folder m f with
+  | VServed _ _ ms =>
+      forallb (fun s => match lookup m (PMsg f (if s_recent s then SNew else SCur)
+                                             (s_key s) (s_info s)) with
+                        | Some (File (Opaque c)) => c =? s_cid s
+                        | _ => false
+                        end) ms
+  | _ => true
+  end.
 
 Definition chk_dump (m : fs) (d : odump) : bool :=
   perm_of fname_eqb (map fst (d_views d)) (folders_of m)
+  && forallb (view_by_lookup m) (folders_of m)
   && forallb (fun fv => view_matches (recover_folder m (fst fv)) (snd fv)) (d_views d)
   && match recover_lsub m, d_lsub d with
-     | Some l, Some l' => perm_of fname_eqb l' l
+     | Some l, Some l' => lsub_ok l l'
      | None, None => true
      | _, _ => false
      end.
